@@ -17,6 +17,14 @@ PROP = "C15"
 
 
 def gen_case(rng, lay, tier):
+    objs = None
+    lay = list(lay)
+    if lay and rng.random() < 0.3:
+        # one object mapped a second time into the same PDO (another slot, same type and length)
+        j = rng.randrange(len(lay))
+        if sum(n for _, n in lay) + lay[j][1] <= 64 and len(lay) < 8:
+            objs = list(range(len(lay))) + [j]
+            lay.append(lay[j])
     pcob = rng.choice([0x184, 0x284, 0x7FF, 0x1ABCDE])
     others = [0x185, 0x284, 0x384, 0x204]
     ncons = rng.randrange(1, 4)
@@ -40,7 +48,7 @@ def gen_case(rng, lay, tier):
             for k in range(1, ncons + 1):
                 for i in range(1, len(lay) + 1):
                     if rng.random() < 0.5:
-                        ops.append({"op": "read", "k": k, "i": i, "how": rng.choice(
+                        ops.append({"op": "read", "k": k, "i": i, "how": "slot" if objs else rng.choice(
                             ["slot", "slot", "index", "name", "hex", "mapno", "node_name", "node_index", "node_pdo"])})
         elif r < 0.75:
             ops.append({"op": "inject", "id": rng.choice(others + [pcob]), "d": [rng.randrange(256) for _ in range(nb)], "ts": ts})
@@ -53,7 +61,7 @@ def gen_case(rng, lay, tier):
             feed = [ts] if rng.random() < 0.7 else []
             ops.append({"op": "wait", "k": rng.randrange(1, ncons + 1), "feed": feed, "timeout": 0.1})
     return {"lay": [list(x) for x in lay], "pcob": pcob, "cons": cons, "ops": ops, "nid": rng.choice([4, 1, 127]),
-            "via_read": rng.random() < 0.5}
+            "via_read": rng.random() < 0.5, "objs": objs}
 
 
 def main():
